@@ -18,6 +18,24 @@ def _number(text):
         return None
 
 
+def _exact(text):
+    """the number the score text denotes, exactly (None when it denotes no finite number or decimal cannot read what float() read)"""
+    import decimal
+    from fractions import Fraction
+    try:
+        d = decimal.Decimal(text.strip())
+    except (decimal.InvalidOperation, ValueError, TypeError):
+        return None
+    if not d.is_finite():
+        return None
+    try:
+        if d != 0 and not (-400 < d.adjusted() < 400) or len(d.as_tuple().digits) > 30000:
+            return "far"                # a huge exponent: certainly not a score, never mind its exact value
+        return Fraction(d)
+    except (ValueError, OverflowError, decimal.InvalidOperation):
+        return None
+
+
 def check_rh_object(inp):
     """rh_vector() == '%.1f' % base + '/' + clean vector; from_rh_vector(rh_vector()) == x"""
     ver, s = inp["ver"], inp["s"]
@@ -68,6 +86,14 @@ def check_rh_parse(inp):
         else:
             base = scorecheck.as_floats(scorecheck.expected_scores(ver, vec))[0]
             want = ["ok"] if num == base else ["rh-mismatch"]
+            if num == base and k == "ok":
+                # read literally, "the number equals the computed base score": a number that differs from the score by less than
+                # the resolution of a double (9.80000000000000001, 7.4999999999999999, 1e-400 for 0.0) is a differing number
+                from fractions import Fraction
+                ex = _exact(score)
+                if ex is not None and (ex == "far" or ex != Fraction(int(round(base * 10)), 10)):
+                    return [failure(["rh-mismatch"], k, key="rh.score-rounded-to-double",
+                                    note="the score text denotes a number different from the base score %.1f; float() rounds it to the same double" % base)]
     if k not in want:
         return [failure(want, k, note=(str(val)[:160] if k != "ok" else None))]
     if k == "ok":
@@ -168,6 +194,9 @@ def sweep_part(shard, n_vectors, seed):
         # near misses of the true base score: neighbouring floats and tiny offsets must be rejected
         import math
         base = scorecheck.as_floats(scorecheck.expected_scores(ver, v))[0]
+        for t_ in ("%.1f0000000000000001" % base, ("%.17f" % (base - 0.05)).rstrip("0") + "4999999999999999999" if base >= 0.1 else "1e-400", "%.1f" % base + "0" * 40 + "7"):
+            part.check("rh_parse", check_rh_parse, {"ver": ver, "text": "%s/%s" % (t_, v)})
+            part.classes["score-below-double-resolution"] += 1
         near = [math.nextafter(base, 11.0), math.nextafter(base, -1.0), base + 1e-7, base - 1e-7, base + 1e-10, base - 1e-13]
         for x in near:
             part.check("rh_parse", check_rh_parse, {"ver": ver, "text": "%r/%s" % (x, v)})
@@ -188,8 +217,9 @@ def run(tier, t0):
             "place of the base score, numbers within 1e-5..1e-13 of the base score and its neighbouring floats; (iii) strings without '/', non-numeric score parts, numeric score + mutated vector, both "
             "faulty. non-trivial = case that must be rejected; distinct by hash (sweep cases by construction)")
     return runner.finish(part, tier, t0, rule,
-                         ["'parses as a number' = Python float() succeeds; equality is exact float equality with the oracle base score",
+                         ["'parses as a number' = Python float() succeeds; a score text that float() reads as another double than the oracle base score must be refused",
+                          "a score text that denotes a number other than the base score but rounds to the same double is expected to be refused (literal reading; listed known finding rh.score-rounded-to-double)",
                           "when both the score part and the vector part are faulty either error class is accepted", "coverage-guided: " + fuzz_note],
                          required=("object", "score-sweep", "near-score", "padded-score", "special-score", "no-slash", "bad-score", "bad-vector", "both-bad",
-                                   "other-score-slot", "sweep-101", "outcome:ok", "outcome:rh-mismatch", "outcome:rh-malformed",
+                                   "other-score-slot", "sweep-101", "score-below-double-resolution", "outcome:ok", "outcome:rh-mismatch", "outcome:rh-malformed",
                                    "outcome:malformed", "outcome:mandatory"))
